@@ -113,6 +113,10 @@ pub enum Ty {
     Fn(Vec<Ty>, Box<Ty>),
     /// `&[T]` / `&mut [T]`, modelled as a list
     Slice(Box<Ty>),
+    /// `core::slice::Windows<'_, T>` of `s.windows(3)`: the part of the slice not yet passed (a list)
+    Windows(Box<Ty>),
+    /// `s.chars()` / an element iterator over a list: the part not yet passed (a list)
+    Iter(Box<Ty>),
     /// `Result<T, E>`, modelled as the sum `T + E`
     Result(Box<Ty>, Box<Ty>),
     /// a type of the `extern` table: an opaque Coq type with whitelisted accessor methods
@@ -139,6 +143,8 @@ impl Ty {
             Ty::Opaque(w) => format!("<unsupported type: {}>", w),
             Ty::Extern(n) => n.clone(),
             Ty::Slice(t) => format!("[{}]", t.show()),
+            Ty::Windows(t) => format!("Windows<{}>", t.show()),
+            Ty::Iter(t) => format!("Iter<{}>", t.show()),
             Ty::Result(t, e) => format!("Result<{}, {}>", t.show(), e.show()),
             Ty::Fn(a, r) => format!("fn({}) -> {}", a.iter().map(|t| t.show()).collect::<Vec<_>>().join(", "), r.show()),
         }
@@ -160,6 +166,8 @@ pub fn join(a: &Ty, b: &Ty) -> R<Ty> {
         (Ty::Extern(x), Ty::Extern(y)) if x == y => a.clone(),
         (Ty::Option(x), Ty::Option(y)) => Ty::Option(Box::new(join(x, y)?)),
         (Ty::Slice(x), Ty::Slice(y)) => Ty::Slice(Box::new(join(x, y)?)),
+        (Ty::Windows(x), Ty::Windows(y)) => Ty::Windows(Box::new(join(x, y)?)),
+        (Ty::Iter(x), Ty::Iter(y)) => Ty::Iter(Box::new(join(x, y)?)),
         (Ty::Result(x, e), Ty::Result(y, f)) => Ty::Result(Box::new(join(x, y)?), Box::new(join(e, f)?)),
         (Ty::Range(x), Ty::Range(y)) => Ty::Range(Box::new(join(x, y)?)),
         (Ty::RangeIncl(x), Ty::RangeIncl(y)) => Ty::RangeIncl(Box::new(join(x, y)?)),
@@ -339,6 +347,10 @@ pub struct Tables {
     pub fuel_consts: BTreeMap<String, String>,
     /// type of an associated constant of a generic type parameter, by constant name
     pub assoc_tys: BTreeMap<String, Ty>,
+    /// `assoc <name> fnmut(..)->..`: the method takes `&mut self`; its Coq type is `A -> args -> (A * ret)`
+    pub assoc_mut: BTreeSet<String>,
+    /// `tymap <tokens of a qualified type> <configured type key>`
+    pub tymap: BTreeMap<String, String>,
     pub adts: BTreeMap<String, Adt>,
     pub fns: Vec<FnInfo>,
     pub consts: Vec<ConstInfo>,
@@ -346,6 +358,38 @@ pub struct Tables {
 }
 
 impl Tables {
+    /// a default inhabitant (the value of `s[i]` in the out-of-range case, where Rust panics)
+    pub fn default_of(&self, t: &Ty) -> Option<String> {
+        Some(match t {
+            Ty::Int(_) => "0".into(),
+            Ty::Bool => "false".into(),
+            Ty::Unit => "tt".into(),
+            Ty::Option(_) => "None".into(),
+            Ty::Slice(_) | Ty::Windows(_) | Ty::Iter(_) => "[]".into(),
+            Ty::Tuple(ts) => format!("({})", ts.iter().map(|x| self.default_of(x)).collect::<Option<Vec<_>>>()?.join(", ")),
+            Ty::Range(x) | Ty::RangeIncl(x) => format!("({d}, {d})", d = self.default_of(x)?),
+            Ty::Adt(n) => match self.adts.get(n)? {
+                Adt::Struct(s) => {
+                    if s.ctor == "-" {
+                        return None;
+                    }
+                    if s.ctor.is_empty() {
+                        // newtype
+                        return self.default_of(&s.fields.first()?.ty);
+                    }
+                    let mut a = vec![];
+                    for f in s.fields.iter().filter(|f| !is_phantom(&f.ty)) {
+                        a.push(self.default_of(&f.ty)?);
+                    }
+                    if a.is_empty() { s.ctor.clone() } else { format!("({} {})", s.ctor, a.join(" ")) }
+                }
+                Adt::Enum(e) => e.variants.iter().find(|v| v.fields.is_empty())?.ctor.clone(),
+            },
+            Ty::Param(p) if self.tyvars.get(p).map(|c| c == "Z").unwrap_or(false) => "0".into(),
+            _ => return None,
+        })
+    }
+
     pub fn coq_ty(&self, t: &Ty) -> R<String> {
         Ok(match t {
             Ty::Int(_) => "Z".into(),
@@ -367,7 +411,7 @@ impl Tables {
             Ty::Range(t) | Ty::RangeIncl(t) => format!("({} * {})", self.coq_ty(t)?, self.coq_ty(t)?),
             Ty::Infer => "_".into(),
             Ty::Opaque(w) => return Err(format!("unsupported type: {}", w)),
-            Ty::Slice(t) => format!("(list {})", self.coq_ty(t)?),
+            Ty::Slice(t) | Ty::Windows(t) | Ty::Iter(t) => format!("(list {})", self.coq_ty(t)?),
             Ty::Result(t, e) => format!("({} + {})", self.coq_ty(t)?, self.coq_ty(e)?),
             Ty::Fn(a, r) => format!("({} -> {})", a.iter().map(|t| self.coq_ty(t)).collect::<R<Vec<_>>>()?.join(" -> "), self.coq_ty(r)?),
             Ty::Extern(n) => match self.externs.get(n) {
@@ -434,6 +478,10 @@ impl Tables {
     }
 
     fn resolve_name0(&self, name: &str, cur_file: &str, self_ty: Option<&str>) -> Option<Ty> {
+        if let Some(q) = name.strip_prefix("qself:") {
+            let k = self.tymap.get(q)?;
+            return self.resolve_name0(k, cur_file, self_ty);
+        }
         if let Some(a) = name.strip_prefix("Self::") {
             return self.assoc_ty(cur_file, self_ty, a);
         }
@@ -490,13 +538,26 @@ impl Tables {
 /// replace generic type parameters by the types of a monomorphic instance (`MajorMinor<i32>`: T := i32)
 pub fn subst_ty(t: &Ty, m: &BTreeMap<String, Ty>) -> Ty {
     match t {
-        Ty::Param(p) => m.get(p).cloned().unwrap_or_else(|| t.clone()),
+        Ty::Param(p) => match m.get(p) {
+            Some(x) => x.clone(),
+            None => {
+                // `G::Assoc` where G is renamed to another type variable
+                if let Some((g, rest)) = p.split_once("::") {
+                    if let Some(Ty::Param(q)) = m.get(g) {
+                        return Ty::Param(format!("{}::{}", q, rest));
+                    }
+                }
+                t.clone()
+            }
+        },
         Ty::Option(x) => Ty::Option(Box::new(subst_ty(x, m))),
         Ty::Range(x) => Ty::Range(Box::new(subst_ty(x, m))),
         Ty::RangeIncl(x) => Ty::RangeIncl(Box::new(subst_ty(x, m))),
         Ty::Tuple(xs) => Ty::Tuple(xs.iter().map(|x| subst_ty(x, m)).collect()),
         Ty::Fn(a, r) => Ty::Fn(a.iter().map(|x| subst_ty(x, m)).collect(), Box::new(subst_ty(r, m))),
         Ty::Slice(x) => Ty::Slice(Box::new(subst_ty(x, m))),
+        Ty::Windows(x) => Ty::Windows(Box::new(subst_ty(x, m))),
+        Ty::Iter(x) => Ty::Iter(Box::new(subst_ty(x, m))),
         Ty::Result(x, e) => Ty::Result(Box::new(subst_ty(x, m)), Box::new(subst_ty(e, m))),
         _ => t.clone(),
     }
